@@ -32,7 +32,20 @@ Expected4(t, x4) ==
               w4 == x4 - lo4 - 4 * j                                                   \* 4 * weight, 0..4
           IN (4 - w4) * t.yp[j + 1] + w4 * t.yp[j + 2]
 
+(* The tabulated densities themselves (interpolate/thakkar_interp.npz), summarised per element Z = 1..103 by the harness:
+   count1000[Z] = 1000 x the number of electrons 4 pi Int rho r^2 dr the tabulated part of the density holds (the table starts at
+   r = 0.2 bohr, so part of the core is missing: 0.997 for H, 76.8 of 103 for Lr), mono[Z] = the density never increases with
+   r, pos[Z] = it is positive everywhere.  A spherically averaged ground-state atomic density is positive and decreasing; its
+   electron count is at most Z, holds most of Z, and grows with Z. *)
+TableVerdict(t) ==
+  IF ~(Len(t.count1000) = 103 /\ Len(t.mono) = 103 /\ Len(t.pos) = 103) THEN "REJECT TableShape" ELSE
+  IF \E z \in 1..103 : ~t.pos[z] THEN "REJECT TablePositive" ELSE
+  IF \E z \in 1..103 : ~t.mono[z] THEN "REJECT TableDecreasing" ELSE
+  IF \E z \in 1..103 : ~(t.count1000[z] <= 1000 * z + 5 /\ 10 * t.count1000[z] >= 7000 * z) THEN "REJECT TableElectronCount" ELSE
+  IF \E z \in 1..102 : t.count1000[z + 1] <= t.count1000[z] THEN "REJECT TableElementOrder" ELSE "ACCEPT"
+
 Verdict(t) ==
+  IF "count1000" \in DOMAIN t THEN TableVerdict(t) ELSE
   IF ~(Len(t.yp) >= 2 /\ (Len(t.xs4) = Len(t.obs4) \/ t.exc # "")) THEN "OOD shape" ELSE
   IF t.exc # "" THEN "REJECT Raised:lerp" ELSE
   IF t.off THEN "REJECT OnGrid:lerp" ELSE
